@@ -18,7 +18,7 @@ DOCS = ["Hi **Markdown**", "# T\n\npara ~~del~~ text[^1]\n\n[^1]: note\n", "a | 
         "﻿# bom title\n", "    code\n\n```py\nx\n```\n", "tab\there é ß 日本\n", "x", "[a](u) ![i](s \"t\") `c`\n\n***\n",
         "H~2~O ^sup^ ==m== ^^ins^^ $m$\n", "term\n: def\n\n*[HTML]: Hyper\nHTML\n",
         # content whose conversion depends on its last characters (unclosed fence / HTML block keep trailing blank lines) and on plugin order
-        "```\nopen fence\n\n\n", "<pre>\n\nkeep\n\n\n", "~~~\n\n", "text\n\n\n\n", "see https://example.com/page for details and ~~x~~\n", "a\r\nb\rc\n", "\n\nlead", "trail   \n\n"]
+        "`\\n` and C:\\new \\nu \\t tab\\\\n", "a\\nb", "```\nopen fence\n\n\n", "<pre>\n\nkeep\n\n\n", "~~~\n\n", "text\n\n\n\n", "see https://example.com/page for details and ~~x~~\n", "a\r\nb\rc\n", "\n\nlead", "trail   \n\n"]
 PLUGIN_SETS = [None, ["url"], ["table"], ["strikethrough", "url"], ["footnotes"], ["task_lists", "def_list"],
                ["math", "ruby", "spoiler"], ["abbr", "mark", "insert", "superscript", "subscript"], ["speedup"],
                # order and repetition are part of the configuration (plugins register rules in the order given)
@@ -89,6 +89,8 @@ def cases(ctx, big=False):
     out.append(dict(escape=True, hardwrap=False, renderer="html", plugins=None, chan="none", outfile=False, doc=""))
     for rend in RENDERERS:
         out.append(dict(escape=False, hardwrap=False, renderer=rend, plugins=None, chan="-f", outfile=True, inplace=True, doc="# Title\n\nin *place* text\n"))
+    for chan in ("-m", "-f", "stdin"):
+        out.append(dict(escape=False, hardwrap=False, renderer="html", plugins=None, chan=chan, outfile=True, relative_out=True, doc="relative *output* name\n" if chan != "-m" else "relative *output* name"))
     for chan in ("-f", "-m"):
         for outf in (False, True):
             out.append(dict(escape=False, hardwrap=False, renderer="html", plugins=None, chan=chan, outfile=outf, doc="the *named* input\n" if chan == "-f" else "the *named* input", extra_stdin="OTHER **stdin** data\n"))
@@ -123,6 +125,8 @@ def one(case, tmp, idx):
     if case["renderer"] != "html": args += ["-r", case["renderer"]]
     if case["plugins"]:
         args += ["-p"] + case["plugins"]
+    if case.get("relative_out"):
+        opath = "out%d.html" % idx           # a bare file name: the CLI runs in the temporary directory
     if case.get("inplace") and case["chan"] == "-f" and case["outfile"]:
         opath = fpath          # converting a file in place: the input must be read before the output file is opened
     if case["outfile"]:
@@ -132,8 +136,9 @@ def one(case, tmp, idx):
         fs_content = open(fpath, encoding="utf-8", newline="").read()
     rc, so, se = run_cli(args, stdin, tmp)
     written = None
-    if os.path.exists(opath) and case["outfile"]:
-        written = open(opath, encoding="utf-8", newline="").read()
+    real_opath = os.path.join(tmp, opath) if not os.path.isabs(opath) else opath
+    if os.path.exists(real_opath) and case["outfile"]:
+        written = open(real_opath, encoding="utf-8", newline="").read()
     req = ("cli", opt(msg), opt(file), "-" if not case["plugins"] else enc_list(case["plugins"]),
            "1" if case["escape"] else "0", "1" if case["hardwrap"] else "0", opt(opath if case["outfile"] else None),
            enc(case["renderer"]), opt(stdin), opt(fs_content))
